@@ -12,6 +12,7 @@ import (
 	"github.com/mimecast/dtail/internal/mapr"
 	"github.com/mimecast/dtail/internal/mapr/logformat"
 	"github.com/mimecast/dtail/internal/protocol"
+	"github.com/mimecast/dtail/internal/vhook"
 )
 
 // Aggregate is for aggregating mapreduce data on the DTail server side.
@@ -120,10 +121,12 @@ func (a *Aggregate) nextLine() (line *line.Line, ok bool, noMoreChannels bool) {
 	case line, ok = <-a.linesCh:
 		if !ok {
 			// Channel is closed, go to next channel.
+			vhook.Point("aggr.closed")
 			select {
 			case a.linesCh = <-a.NextLinesCh:
 			default:
 				noMoreChannels = true
+				vhook.Point("aggr.closed.nomore")
 			}
 		}
 	default:
@@ -131,6 +134,7 @@ func (a *Aggregate) nextLine() (line *line.Line, ok bool, noMoreChannels bool) {
 		select {
 		case newLinesCh := <-a.NextLinesCh:
 			oldLinesCh := a.linesCh
+			vhook.Point("aggr.requeue")
 			go func() { a.NextLinesCh <- oldLinesCh }()
 			a.linesCh = newLinesCh
 		default:
